@@ -418,7 +418,14 @@ func (c *Ctx) c01MetablockBinding(R string) {
 		c.check(sigOK, R, fn, "signature bytes", call.Pos(), "sig = hex(receiver.GetSignatureForKeyID(key.KeyID).Sig)", "signature bytes come from "+detail)
 		// success return dominated by ok(Verify)
 		for _, r := range c.nilErrReturns(vs) {
-			c.check(c.okCallAt(call, r.Block()), R, fn, "success return", instrPos(r), "dominated by nil-error edge of Verify", "VerifySignature can return nil without a successful Verify")
+			// `return verifier.Verify(...)` hands back Verify's own error
+			direct := false
+			if ei := errIndex(vs); ei >= 0 {
+				if pc, _ := producer(r.Results[ei], r); pc == call {
+					direct = true
+				}
+			}
+			c.check(direct || c.okCallAt(call, r.Block()), R, fn, "success return", instrPos(r), "returns Verify's error / dominated by its nil edge", "VerifySignature can return nil without a successful Verify")
 		}
 	}
 	if !found {
